@@ -88,9 +88,11 @@ class Invariance(SxContract):
         self.g.epsilon = eps
         return {"P": P, "A": A}
 
-    def _eval(self, P, A):
+    def _eval(self, P, A, fresh=False):
+        # fresh: P is already a new array (the result of an indexing expression) and is handed in as NumPy produced it --
+        # P[:, perm] is column-major, which is how a relabelled prediction matrix reaches evaluate in practice
         self.stub.calls = []
-        return self.g.evaluate(P.copy(), None if A is None else A.copy(), return_grad=True)
+        return self.g.evaluate(P if fresh else P.copy(), None if A is None else A.copy(), return_grad=True)
 
     def body(self, inp):
         P, A = inp["P"], inp["A"]
@@ -100,12 +102,12 @@ class Invariance(SxContract):
             for i in range(n - 1):
                 idx = list(range(n))
                 idx[i], idx[i + 1] = idx[i + 1], idx[i]
-                out["perm"].append((idx, self._eval(P[idx], None if A is None else A[idx][:, idx])))
+                out["perm"].append((idx, self._eval(P[idx], None if A is None else A[idx][:, idx], fresh=True)))
         if self.what in ("perm-cols", "empty-perm"):      # empty-perm: relabelling when one of the clusters is empty
             for k in range(K - 1):
                 idx = list(range(K))
                 idx[k], idx[k + 1] = idx[k + 1], idx[k]
-                out["perm"].append((idx, self._eval(P[:, idx], A)))
+                out["perm"].append((idx, self._eval(P[:, idx], A, fresh=True)))
         return out
 
     def ensures(self, inp, out):
